@@ -469,6 +469,7 @@ def check_C06(res, ctx):
             res.violation("correspondence broke on adoption run %d at `%s`: code=%s model=%s" % (i, ops[k], x[:200], y[:200]),
                           {"ops": ops[:k + 1], "code": x, "model": y, "correspondence": "engine line protocol"}, no_input=True)
     conccheck.check_merge_concurrent(res, ctx, rng_for(ctx.seed, "C06c"), [1, 3] if ctx.quick else [1, 2, 3], 6 if ctx.quick else 60)
+    conccheck.check_merge_model(res, ctx, rng_for(ctx.seed, "C06m"), [1, 3] if ctx.quick else [1, 2, 3], 8 if ctx.quick else 80)
     return "histories mixing plain and batch writes, deletes, several merges and restarts, with DataFileSize changed between runs so the merged " \
            "output needs fewer / equal / more files than the input (Merge may refuse with the id-conflict error); dumps after merge, after the " \
            "adopting restart and after a second restart against the reference map; merge directory gone; forced schedules pausing Merge inside " \
@@ -488,6 +489,7 @@ def check_C08(res, ctx):
     conccheck.check_kv_schedules(res, ctx, [1, 3] if ctx.quick else [1, 2, 3])
     # a concurrent Merge: writers inside the window right after Merge released the lock, and inside its scan loop
     conccheck.check_merge_concurrent(res, ctx, rng_for(ctx.seed, "C08m"), [3] if ctx.quick else [1, 2, 3], 6 if ctx.quick else 40)
+    conccheck.check_merge_model(res, ctx, rng_for(ctx.seed, "C08mm"), [2] if ctx.quick else [1, 2, 3], 6 if ctx.quick else 40)
     # readers of the last acknowledged key against a writer that rotates on almost every Put
     for i in range(1 if ctx.quick else 6):
         rep, err, rc = conccheck.run_race(ctx, 3 if ctx.quick else 15, 12, 1 + i % 3, i % 2, ctx.seed, race=False, mode="hot")
